@@ -15,6 +15,7 @@ import (
 	"context"
 	"encoding/json"
 	"fmt"
+	"github.com/gorilla/websocket"
 	"strings"
 	"testing"
 	"time"
@@ -267,6 +268,85 @@ func runC06(c c06Case) (*Violation, string) {
 	return nil, ""
 }
 
+// ---- cancel messages from a peer that is not the library's own client ------------------------------------------
+
+// c06Raw: a raw WebSocket peer puts two calls in flight and cancels the first with an xrpc.cancel frame shaped as
+// described; the second stays untouched and is then cancelled with a plain frame.
+type c06Raw struct {
+	CancelID   string `json:"cancel_id"`   // JSON for the cancel frame's own "id" member ("" = absent, as the library's client sends it)
+	TargetForm string `json:"target_form"` // how the cancelled call's id is written: int | float | string
+}
+
+func runC06Raw(c c06Raw) *Violation {
+	rig, err := NewRig(RigOpts{NoProxy: true})
+	if err != nil {
+		return nil
+	}
+	defer rig.Close()
+	conn, _, err := websocket.DefaultDialer.Dial("ws://"+rig.Addr(), nil)
+	if err != nil {
+		return nil
+	}
+	defer conn.Close()
+	go func() {
+		for {
+			if _, _, err := conn.ReadMessage(); err != nil {
+				return
+			}
+		}
+	}()
+	ids := []string{"1", "2"}
+	if c.TargetForm == "string" {
+		ids = []string{`"a"`, `"b"`}
+	}
+	toks := []string{rig.Tok("raw"), rig.Tok("raw")}
+	for i, id := range ids {
+		frame := fmt.Sprintf(`{"jsonrpc":"2.0","id":%s,"method":"Tok.Call","params":[%s,{"gate":true,"watch_ctx":true}]}`, id, mustJSON(toks[i]))
+		if conn.WriteMessage(websocket.TextMessage, []byte(frame)) != nil {
+			return nil
+		}
+	}
+	for _, tok := range toks {
+		if !rig.W.WaitStarted(tok, 3*time.Second) {
+			return nil
+		}
+	}
+	target := ids[0]
+	if c.TargetForm == "float" {
+		target = "1.0"
+	}
+	cancelFrame := func(own, target string) string {
+		if own == "" {
+			return fmt.Sprintf(`{"jsonrpc":"2.0","method":"xrpc.cancel","params":[%s]}`, target)
+		}
+		return fmt.Sprintf(`{"jsonrpc":"2.0","id":%s,"method":"xrpc.cancel","params":[%s]}`, own, target)
+	}
+	if conn.WriteMessage(websocket.TextMessage, []byte(cancelFrame(c.CancelID, target))) != nil {
+		return nil
+	}
+	ctx0, ctx1 := rig.W.Ctx(toks[0]), rig.W.Ctx(toks[1])
+	deadline := time.Now().Add(2 * time.Second)
+	for ctx0.Err() == nil && time.Now().Before(deadline) {
+		time.Sleep(time.Millisecond)
+	}
+	if ctx0.Err() == nil {
+		return violf("cancel-not-delivered", "a peer cancelled call %s with the frame %s, but the handler's context is still live after 2s", ids[0], cancelFrame(c.CancelID, target))
+	}
+	time.Sleep(20 * time.Millisecond)
+	if ctx1.Err() != nil {
+		return violf("spurious-cancel", "the cancel frame %s for call %s also cancelled call %s", cancelFrame(c.CancelID, target), ids[0], ids[1])
+	}
+	conn.WriteMessage(websocket.TextMessage, []byte(cancelFrame("", ids[1])))
+	deadline = time.Now().Add(2 * time.Second)
+	for ctx1.Err() == nil && time.Now().Before(deadline) {
+		time.Sleep(time.Millisecond)
+	}
+	if ctx1.Err() == nil {
+		return violf("cancel-not-delivered", "a plain cancel frame for call %s sent after %s did not reach its handler within 2s", ids[1], cancelFrame(c.CancelID, target))
+	}
+	return nil
+}
+
 func c06NT(c c06Case) (bool, []string) {
 	cl := []string{"tr_" + c.Transport}
 	nCancel, nKeep := 0, 0
@@ -287,13 +367,13 @@ func c06NT(c c06Case) (bool, []string) {
 	return len(c.Calls) >= 2 && nCancel > 0 && nKeep > 0, cl
 }
 
-const c06Rule = "1-6 gated unary calls and 0-3 paced subscriptions on one client (ws; 1/5 of cases http with unary calls only) plus one call and one subscription on a second client that is never touched; every call is assigned none | cancelled-before-issue | cancelled-while-running | cancel-racing-release | cancelled-after-subscription-established; delays at cancel.send / call.dispatch / write.locked; optionally a notification whose handler keeps running was sent on the same connection before the cancellations. Grid: every strict non-empty subset of 4 calls cancelled, per instant. Non-trivial = >=2 concurrent calls with a strict, non-empty subset cancelled; distinct by descriptor hash"
+const c06Rule = "1-6 gated unary calls and 0-3 paced subscriptions on one client (ws; 1/5 of cases http with unary calls only) plus one call and one subscription on a second client that is never touched; every call is assigned none | cancelled-before-issue | cancelled-while-running | cancel-racing-release | cancelled-after-subscription-established; delays at cancel.send / call.dispatch / write.locked; a raw WebSocket peer cancelling one of two calls with xrpc.cancel frames that carry no id, a numeric, string or fractional id of their own, and the target id written as integer, float or string; optionally a notification whose handler keeps running was sent on the same connection before the cancellations. Grid: every strict non-empty subset of 4 calls cancelled, per instant. Non-trivial = >=2 concurrent calls with a strict, non-empty subset cancelled; distinct by descriptor hash"
 
 func TestC06(t *testing.T) {
 	rec := NewRec("C06", c06Rule)
 	defer rec.Finish(t)
 	rec.EnableJournal()
-	rec.RequireClass("behind_slow_notification", "churn", "cancel_pending", "cancel_before", "cancel_running", "cancel_race", "cancel_established", "cancel_none", "tr_http", "tr_ws", "with_delays")
+	rec.RequireClass("cancel_frame_with_id", "behind_slow_notification", "churn", "cancel_pending", "cancel_before", "cancel_running", "cancel_race", "cancel_established", "cancel_none", "tr_http", "tr_ws", "with_delays")
 	run := func(ft failer, c c06Case) {
 		nt, cl := c06NT(c)
 		rec.Run(ft, c, nt, cl, func() *Violation {
@@ -372,6 +452,18 @@ func TestC06(t *testing.T) {
 			return v
 		})
 	})
+	t.Run("raw-peer", func(t *testing.T) {
+		for _, own := range []string{"", "3", `"c"`, "2.5", "null"} {
+			for _, form := range []string{"int", "float", "string"} {
+				c := c06Raw{CancelID: own, TargetForm: form}
+				cl := []string{"raw_peer_cancel"}
+				if own != "" && own != "null" {
+					cl = append(cl, "cancel_frame_with_id")
+				}
+				rec.Run(t, c, true, cl, func() *Violation { return runC06Raw(c) })
+			}
+		}
+	})
 	rec.Rapid(t, "rapid", func(rt *rapid.T) {
 		c := c06Case{Transport: "ws"}
 		if rapid.IntRange(0, 4).Draw(rt, "http") == 0 {
@@ -402,6 +494,11 @@ func TestC06Replay(t *testing.T) {
 	Replay(t, "C06", 20, func(raw json.RawMessage) *Violation {
 		var probe map[string]json.RawMessage
 		_ = json.Unmarshal(raw, &probe)
+		if _, ok := probe["target_form"]; ok {
+			var rc c06Raw
+			_ = json.Unmarshal(raw, &rc)
+			return runC06Raw(rc)
+		}
 		if _, ok := probe["ops"]; ok {
 			var ch c06Churn
 			_ = json.Unmarshal(raw, &ch)
